@@ -12,6 +12,7 @@ import (
 
 	"github.com/safing/portbase/api"
 	"github.com/safing/portbase/database"
+	"github.com/safing/portbase/database/record"
 )
 
 // apiConn is the far end of one external database API connection: everything the API
@@ -185,7 +186,45 @@ func (x *exec) runAPI() {
 		defer a.ws.Close()
 	}
 	qtext := "query " + w.db + ":" + x.prefix
-	switch c.Path {
+	path := c.Path
+	switch {
+	case path == "api-xget":
+		path = "api-get"
+	case path == "api-xquery-exact":
+		msgsC, ok1 := a.query("2c", "query "+x.ctl)
+		msgs, ok2 := a.query("2", "query "+x.key)
+		if !ok1 || !ok2 {
+			w.b.Inconclusive("cell %s: API query did not finish (watchdog)", c.sig())
+			return
+		}
+		recsC, textsC := splitAPI(msgsC, "2c")
+		_, ctlSeen, _ := x.hand(recsC, textsC...)
+		recs, texts := splitAPI(msgs, "2")
+		seen, _, tb := x.hand(recs, texts...)
+		x.readOutcome(seen && strings.Contains(string(tb), x.tok), nil, true, ctlSeen)
+		return
+	case strings.Contains(path, "-alias-"), strings.HasSuffix(path, "-getfault"):
+		verb := "update"
+		if strings.HasPrefix(path, "api-create") {
+			verb = "create"
+		}
+		send := func(r record.Record) error {
+			reply, ok := a.request("6", verb+"|"+r.Key()+"|J"+recData(r))
+			if !ok {
+				return errors.New("no API reply (watchdog)")
+			}
+			recs, texts := splitAPI([][]byte{reply}, "6")
+			x.hand(recs, texts...)
+			return apiErr(reply, "6")
+		}
+		if strings.HasSuffix(path, "-getfault") {
+			x.runGetFaultWrite(send)
+		} else {
+			x.runAliasWrite(verb == "create", path[strings.LastIndex(path, "-")+1:], func(r record.Record, _ bool) error { return send(r) })
+		}
+		return
+	}
+	switch path {
 	case "api-get":
 		reply, ok := a.request("1", "get|"+x.key)
 		if !ok {
